@@ -133,7 +133,7 @@ func (c *Check) configTables() {
 		c.undecided("C19-R1", "anchor:tables", p.relFile(initFn.Pos()), "notSaved/urlparam/choices tables not found in init")
 		return
 	}
-	names := map[string]bool{}     // every configurable option name
+	names := map[string]bool{}      // every configurable option name
 	savedNames := map[string]bool{} // options stored in settings.json
 	transient := map[string]bool{}  // Go field names with json:"-"
 	for _, f := range fields {
